@@ -262,6 +262,12 @@ func calculateBackoff(endpoint *domain.Endpoint, success bool) (time.Duration, i
 	// Only apply backoff on subsequent failures
 	if endpoint.BackoffMultiplier <= 1 {
 		// First failure - use normal interval but set multiplier to 2 for next time
+		// (capped like every other delay after a failure: a check_interval above the cap
+		// would otherwise leave a failing endpoint unchecked for longer after its first
+		// failure than after its second)
+		if endpoint.CheckInterval > MaxBackoffSeconds {
+			return MaxBackoffSeconds, 2
+		}
 		return endpoint.CheckInterval, 2
 	}
 
